@@ -218,14 +218,21 @@ theorem republishAll_nil (oks : List Bool) : republishAll [] oks = [] := by
 theorem restore_empty {m m' : Mon} {rep : List Bool} {rec : List Recreate}
     (ha : m.action = .restoreSubscriptions) (h1 : m.toRepublish = []) (h2 : m.toRecreate = [])
     (hs : step m (.restoreSubsRes rep rec) = some m') :
-    m'.connected = true ∧ m'.action = .none ∧ (finish m').loop = m.loop ∧ m'.subs = m.subs := by
+    m'.connected = true ∧ m'.action = .none ∧ m'.subs = m.subs ∧ m'.activeSubs = 0 ∧
+    (m.subs ≠ [] → (finish m').loop = .running) ∧ (m.subs = [] → (finish m').loop = m.loop) := by
   unfold step at hs
   simp only [ha, h1, h2, List.length_nil] at hs
   split at hs
   · simp only [republishAll_nil, List.append_nil, recreateAll_nil, Option.some.injEq] at hs
     subst hs
-    simp [finish]
+    refine ⟨rfl, rfl, rfl, rfl, ?_, ?_⟩
+    · intro hne; simp [finish, hne]
+    · intro he; simp [finish, he]
   · simp at hs
+
+/-- whenever the reconnect code finishes with a registered subscription, the loop runs -/
+theorem finish_running {m : Mon} (h : m.subs ≠ []) : (finish m).loop = .running := by
+  simp [finish, h]
 
 theorem republishAll_all_ok : ∀ (ids : List Nat), republishAll ids (ids.map fun _ => true) = []
   | [] => rfl
